@@ -19,6 +19,8 @@ import (
 // peer's view never depends on the code under test being right.
 type Peer struct {
 	stall chan struct{} // non-nil: the peer does not read (see StallReads)
+	// HeaderRead: the 4-byte transport header was consumed before Serve started
+	HeaderRead bool
 	Conn    net.Conn
 	Key     [256]byte
 	T0      time.Time
@@ -79,7 +81,9 @@ func NewPeer(conn net.Conn, key [256]byte) *Peer {
 // Serve reads client frames until the connection ends. Run it in a goroutine.
 func (p *Peer) Serve() {
 	var hdr [4]byte
-	if _, err := io.ReadFull(p.Conn, hdr[:]); err != nil {
+	if p.HeaderRead {
+		binary.LittleEndian.PutUint32(hdr[:], 0xeeeeeeee) // someone else consumed the transport header already
+	} else if _, err := io.ReadFull(p.Conn, hdr[:]); err != nil {
 		p.setErr(err)
 		return
 	}
